@@ -161,6 +161,36 @@ func raceScenario(p raceParams) func() {
 			})
 			run("b", call("Multicast", 0, false))
 			run("ids", func() { _ = w.Mgr.NodeIDs(); _, _ = w.Mgr.Node(1) })
+		case "blocked-send-cancel-reset":
+			// a request whose SendMsg is blocked on a full transport window; then its context ends and the
+			// stream is reset at the same time (the watcher of sendMsg, the sender and the receiver all react)
+			w3 := world.New(world.Opts{N: 1, Window: 1, SendBuffer: p.buf})
+			if w3.Cfg == nil {
+				return
+			}
+			w3.Handle = func(h *world.HCtx) world.Reply { w3.Wait("g"); return world.Reply{} }
+			for i := 0; i < 2; i++ {
+				c := w3.NewCall("Unicast")
+				c.Node, c.NoSendWaiting = 1, true
+				w3.Invoke(c)
+				mc.Quiesce()
+			}
+			x := w3.NewCall("GRPCCall")
+			x.Node = 1
+			run("x", func() { w3.Invoke(x) })
+			mc.Quiesce()
+			run("cancel", func() { x.Cancel(context.Canceled) })
+			run("fault", func() { w3.FW.Reset(world.Addr(1)) })
+			run("y", func() {
+				c := w3.NewCall("GRPCCall")
+				c.Node = 1
+				mc.GoNamed("cancel-y", func() { c.Cancel(context.Canceled) })
+				w3.Invoke(c)
+			})
+			wg.Wait()
+			mc.NoBranch(true)
+			w3.Open("g")
+			w3.Mgr.Close()
 		case "server-streams":
 			run("a", call("CorrectableStream", 0, false))
 			run("b", call("CorrectableStream", 0, true))
@@ -176,7 +206,7 @@ func raceScenario(p raceParams) func() {
 func raceInstances(tier string) []Instance {
 	var out []Instance
 	for _, wl := range []string{"calls", "calls-cancel", "config-vs-nodes", "and-shared", "restart", "close", "down-close", "server-streams",
-		"correctable-observers", "async-observers", "pernode-custom", "reset-lasterr", "addnodes-during-calls"} {
+		"correctable-observers", "async-observers", "pernode-custom", "reset-lasterr", "addnodes-during-calls", "blocked-send-cancel-reset"} {
 		for _, buf := range []uint{0, 1} {
 			if buf == 1 && !thorough(tier) && wl != "close" && wl != "calls" {
 				continue
@@ -194,8 +224,8 @@ func raceInstances(tier string) []Instance {
 
 func init() {
 	register(&Check{ID: "C15",
-		Rule: "13 concurrent workloads over one manager (all call types from three goroutines; calls with concurrent cancellations; configuration creation that re-sorts the node pool concurrently with Nodes/NodeIDs/Size and calls; And/Except from two goroutines on shared operands; crash+restart during traffic; Close during traffic with LastErr/Latency readers; Close racing with the sender's re-dial of a down node; released server handlers streaming concurrently; several observers of one correctable / one future; per-node + custom-type variants; stream reset with LastErr readers; WithNewNodes during calls) x send buffer {0,1}, explored under the -race build within the deviation bound; ThreadSanitizer observes every schedule with the scheduler's hand-offs hidden (RaceDisable) and the modelled primitives' happens-before edges announced (RaceAcquire/RaceRelease); oracle: no race report whose two stacks both contain a frame of the library or its generated code; an outcome is the instance (plus each distinct report signature)",
-		Gen:  raceInstances,
+		Rule:        "14 concurrent workloads over one manager (all call types from three goroutines; calls with concurrent cancellations; configuration creation that re-sorts the node pool concurrently with Nodes/NodeIDs/Size and calls; And/Except from two goroutines on shared operands; crash+restart during traffic; Close during traffic with LastErr/Latency readers; Close racing with the sender's re-dial of a down node; released server handlers streaming concurrently; several observers of one correctable / one future; per-node + custom-type variants; stream reset with LastErr readers; WithNewNodes during calls; context end and stream reset while a send is blocked on a full transport window) x send buffer {0,1}, explored under the -race build within the deviation bound; ThreadSanitizer observes every schedule with the scheduler's hand-offs hidden (RaceDisable) and the modelled primitives' happens-before edges announced (RaceAcquire/RaceRelease); oracle: no race report whose two stacks both contain a frame of the library or its generated code; an outcome is the instance (plus each distinct report signature)",
+		Gen:         raceInstances,
 		Assumptions: []string{"interleaving happens at visible operations; the race detector sees the accesses between them on every explored schedule", "TSan keeps a bounded access history per memory cell", "reports with no library frame on one side (harness bookkeeping) are not counted"},
 	})
 }
